@@ -101,8 +101,6 @@ def parse_block(s, tail):
             j += 1
         text = norm(s[i:j])
         is_tail = tail and j >= n
-        if j >= n and not tail:
-            raise ExtractError(f"value expression {text!r} in a non-tail block")
         out.append(("stmt", text, is_tail))
         i = j + 1
     return out
@@ -320,4 +318,84 @@ def conduit_src():
     return "\n".join(lines)
 
 
-EXTRACTORS = {"CoopConsts": coop_consts, "ConduitSrc": conduit_src}
+# ---------------------------------------------------------------- coop/mod.rs: the budget cell
+
+B_CONDS = {
+    "b == 0": ".bZero",
+    "poll.is_pending()": ".pollPending",
+    "let Some(mut b) = budget.get()": ".getSome",
+}
+B_ATOMS = {
+    "b = b.saturating_sub(1)": ".subOne",
+    "b = b.saturating_add(1)": ".addOne",
+    "budget.set(None)": ".setNone",
+    "budget.set(Some(b))": ".setB",
+    "budget.set(Some(DEFAULT_START_BUDGET.get()))": ".setDefault",
+    "context.waker().wake_by_ref()": ".wakeSelf",
+}
+B_RETS = {"Poll::Pending": ".pending", "Poll::Ready(())": ".ready", "poll": ".same"}
+
+
+def emit_b(nodes, fn):
+    items = []
+    for nd in nodes:
+        if nd[0] == "if":
+            _, cond, then_l, else_l, _ = nd
+            if cond not in B_CONDS:
+                raise ExtractError(f"{fn}: unknown condition {cond!r}")
+            items.append(f"(.ite {B_CONDS[cond]} {emit_b(then_l, fn)} {emit_b(else_l, fn)})")
+            continue
+        _, text, is_tail = nd
+        if text in B_RETS:
+            if not is_tail:
+                raise ExtractError(f"{fn}: {text!r} is not in tail position")
+            items.append(f"(.ret {B_RETS[text]})")
+        elif text in B_ATOMS:
+            items.append(B_ATOMS[text])
+        elif text.startswith("TASK_BUDGET.with(|budget| {") and text.endswith("})"):
+            inner = text[len("TASK_BUDGET.with(|budget| {"):-2]
+            items.append(emit_b(parse_block(inner, False), fn))
+        else:
+            raise ExtractError(f"{fn}: unknown statement {text!r}")
+    return seq(items)
+
+
+def coop_src():
+    t = strip_comments(src("swimos_utilities/swimos_byte_channel/src/coop/mod.rs"))
+    t = re.sub(r"#\[inline\]", "", t)
+    one(r"static TASK_BUDGET: Cell<Option<usize>> = const \{ Cell::new\(None\) \};", t, "TASK_BUDGET cell")
+    # consume_budget: `TASK_BUDGET.with(|budget| match budget.get() { Some(mut b) => {..} None => {..} })`
+    body = norm(fn_body(t, "consume_budget", r"fn consume_budget\(context: &mut Context<'_>\) -> Poll<\(\)>",
+                        "coop"))
+    pre = "TASK_BUDGET.with(|budget| match budget.get() { Some(mut b) => {"
+    if not body.startswith(pre):
+        raise ExtractError(f"consume_budget: unexpected shape {body[:80]!r}")
+    i = len(pre) - 1
+    e = balanced(body, i)
+    some_src = body[i + 1:e - 1]
+    rest = body[e:].strip()
+    if not rest.startswith("None => {"):
+        raise ExtractError(f"consume_budget: unexpected second arm {rest[:40]!r}")
+    j = rest.index("{")
+    e2 = balanced(rest, j)
+    none_src = rest[j + 1:e2 - 1]
+    if norm(rest[e2:]) not in ("})", "} )"):
+        raise ExtractError(f"consume_budget: trailing text {rest[e2:]!r}")
+    consume = (f"(.matchGet {emit_b(parse_block(some_src, True), 'consume_budget')} "
+               f"{emit_b(parse_block(none_src, True), 'consume_budget')})")
+    body = fn_body(t, "track_progress", r"fn track_progress<T>\(poll: Poll<T>\) -> Poll<T>", "coop")
+    track = emit_b(parse_block(body, True), "track_progress")
+    one(r"fn set_budget\(n: usize\) \{\s*TASK_BUDGET\.with\(\|budget\| \{\s*budget\.set\(Some\(n\)\);\s*\}\)\s*\}", t,
+        "set_budget")
+    one(r"let projected = self\.project\(\);\s*set_budget\(projected\.budget\.get\(\)\);\s*projected\.fut\.poll\(cx\)", t,
+        "RunWithBudget::poll")
+    if len(re.findall(r"TASK_BUDGET", t)) != 4:
+        raise ExtractError("TASK_BUDGET is used somewhere else than consume_budget / track_progress / set_budget")
+    return "\n".join([HEADER, "import SwimVerif.Model.ConduitProg", "namespace SwimVerif.Generated.CoopSrc",
+                      "open SwimVerif.ConduitProg", "",
+                      "/-- `coop::consume_budget` -/", f"def consume_budget : BStmt :=\n  {consume}",
+                      "/-- `coop::track_progress` -/", f"def track_progress : BStmt :=\n  {track}",
+                      "end SwimVerif.Generated.CoopSrc\n"])
+
+
+EXTRACTORS = {"CoopConsts": coop_consts, "ConduitSrc": conduit_src, "CoopSrc": coop_src}
